@@ -45,6 +45,7 @@ func init() {
 			default:
 				if c.Spec != nil {
 					c04OneCellCase(w, &c)
+					c04RefSentences(w, &c, 7)
 				}
 			}
 		},
@@ -230,6 +231,7 @@ func c04Cells(w *Worker) {
 				}
 				if w.Mine(idx) {
 					c04OneCellCase(w, &GCase{Origin: "mixfix+prec", Spec: s})
+					c04RefSentences(w, &GCase{Origin: "mixfix+prec", Spec: s}, 6)
 				}
 				idx++
 			}
@@ -239,6 +241,7 @@ func c04Cells(w *Worker) {
 	for _, n := range gram.Families() {
 		if len(n.Spec.Prec) > 0 && w.Mine(idx) {
 			c04OneCellCase(w, &GCase{Origin: "family:" + n.Name, Spec: n.Spec})
+			c04RefSentences(w, &GCase{Origin: "family:" + n.Name, Spec: n.Spec}, 7)
 		}
 		idx++
 	}
@@ -574,6 +577,7 @@ func c04OneTable(w *Worker, c *GCase) {
 	w.Distinct(key)
 	// cell-level comparison for this decorated grammar as well
 	c04OneCellCase(w, &GCase{Origin: c.Origin, Spec: c.Spec})
+	c04RefSentences(w, c, 5)
 	m := lrm.Dense(vw.V)
 	e := ref.NewEarley(g)
 	maxLen := 5
@@ -852,4 +856,97 @@ func forEachDecorated(w *Worker, base int64, f func(c *GCase)) {
 			return true
 		})
 	}
+}
+
+// c04RefSentences: for a grammar whose conflicts are all decided by the
+// declarations, every sentence of the underlying grammar up to maxLen must be
+// parsed by yaccgo's dense AND packed tables exactly as by the reference table
+// (same verdict, same reductions): the grouping the declarations say, and a
+// syntax error where %nonassoc forbids the chain.
+func c04RefSentences(w *Worker, c *GCase, maxLen int) {
+	g := ref.FromSpec(c.Spec)
+	if !g.Usable() {
+		return
+	}
+	t := g.LR0().Table()
+	if t.ConflictFree || !t.AllJudged() {
+		return
+	}
+	text := c.Spec.Render()
+	res := ygo.Build(text, ygo.Options{Fuel: buildFuel})
+	if !res.OK() {
+		return
+	}
+	vw, err := ygo.NewView(res.V, g)
+	if err != nil {
+		return
+	}
+	key := cellKey(c.Spec)
+	refM := refMachine(g, t)
+	machines := map[string]*lrm.Machine{"dense": lrm.Dense(vw.V)}
+	if pm := lrm.Packed(vw.V); pm != nil {
+		machines["packed"] = pm
+	}
+	e := ref.NewEarley(g)
+	var terms []int
+	for i, nt := range g.IsNT {
+		if !nt {
+			terms = append(terms, i)
+		}
+	}
+	run := func(m *lrm.Machine, toks []int, own bool) (lrm.Outcome, []int) {
+		cfg := lrm.Initial()
+		if !own {
+			cfg = lrm.Config{St: []int{0}, Sym: []int{g.EOF()}}
+		}
+		var reds []int
+		pos := 0
+		for {
+			la := g.EOF()
+			if pos < len(toks) {
+				la = toks[pos]
+			}
+			if own {
+				la = vw.RefToSym[la]
+			}
+			next, sr := m.Step(cfg, la, 4000)
+			reds = append(reds, sr.Reds...)
+			if sr.Out != lrm.Shifted {
+				return sr.Out, reds
+			}
+			cfg = next
+			pos++
+		}
+	}
+	violated := false
+	var rec func(chart []*ref.ESet, toks []int)
+	rec = func(chart []*ref.ESet, toks []int) {
+		if violated {
+			return
+		}
+		if e.Accepts(chart) {
+			w.Count("sentences_against_reference_table", 1)
+			wantOut, wantReds := run(refM, toks, false)
+			for name, m := range machines {
+				gotOut, gotReds := run(m, toks, true)
+				if gotOut != wantOut || (wantOut == lrm.Accepted && fmt.Sprint(gotReds) != fmt.Sprint(wantReds)) {
+					violated = true
+					in := tokString(g, toks, g.EOF())
+					w.Violate("C04|grouping-differs-from-declarations|"+name+"|"+key, fmt.Sprintf("grammar [%s], input [%s]: a parser built to the declarations answers %s with reductions %v, yaccgo's %s table answers %s with reductions %v", key, in, wantOut, redText(g, wantReds), name, gotOut, redText(g, gotReds)), c,
+						map[string]interface{}{"grammar_text": text, "input": in, "table": name})
+					return
+				}
+			}
+		}
+		if len(toks) >= maxLen {
+			return
+		}
+		for _, tk := range terms {
+			if e.CanShift(chart, tk) {
+				nc, _ := e.Step(chart, tk)
+				rec(nc, append(append([]int(nil), toks...), tk))
+			}
+		}
+	}
+	rec(e.Start(), nil)
 }
